@@ -307,6 +307,7 @@ class Interp:
         self.call_hooks = {}                  # callee key -> hook(interp, args, kwargs, node)  (assert_at)
         self.occ = {}                         # occurrence counters for naming
         self.use_contract_for = None          # optional set restricting which contracts are applied
+        self.force_inline_quals = set()       # callees whose real body is executed although a caller-side model exists
 
     # ---------------------------------------------------------------- helpers
     @property
@@ -569,7 +570,16 @@ class Interp:
                     return self.eval_in_module(ca, self.front.classes[owner].module)
             key = f"{o.cls}.{attr}"
             if key in self.reg.obj_props:
-                return self.reg.obj_props[key](self, o, n)
+                v = self.reg.obj_props[key](self, o, n)
+                if v is not None:
+                    return v
+            if o.cls == "NS":
+                # a namespace token behaves like the generic array namespace for everything that is not dtype-specific
+                if f"xp.{attr}" in self.reg.handlers and key not in self.reg.handlers:
+                    h = self.reg.handlers[f"xp.{attr}"]
+                    return Fn(h, f"xp.{attr}", bound=o if getattr(h, "_wants_mod", False) else None)
+                if f"xp.{attr}" in self.reg.consts:
+                    return self.reg.consts[f"xp.{attr}"]
             if key in self.reg.handlers:
                 return Fn(self.reg.handlers[key], key, bound=o)
             for c in (self.front.mro(o.cls) if o.cls in self.front.classes else []):
@@ -1099,7 +1109,7 @@ class Interp:
             hook(self, info, bound, args, kwargs, n)
         c = self.contracts.get(q)
         top = not self.frames or (self.depth == 0)
-        if c is not None and not force_inline and not (top and q == self.target) and c.usable_at_call(self, q):
+        if c is not None and not force_inline and not (top and q == self.target) and q not in self.force_inline_quals and c.usable_at_call(self, q):
             self.path.ex.contracts_used.add(q)
             return c.apply(self, info, bound, args, kwargs, n)
         if self.depth >= self.inline_depth:
